@@ -10,6 +10,7 @@ from ..orderings import NotAFormula, eval_order, eval_prop, weak_orderings
 from ..report import Report
 from ..resolve import const_value, dotted
 from ..util import returns_of, src
+from .oneshot import oneshot_rule
 
 SPAN_MOD = "windpyutils.structures.span_set"
 ROLES = ["xs", "xe", "ys", "ye"]
@@ -68,6 +69,7 @@ def run(prog: Program, rep: Report):
     r3_operators(prog, rep, ss)
     r4_comparisons(prog, rep, ss)
     r5_arrays(prog, rep, ss)
+    oneshot_rule(prog, rep, "C10.R6", [prog.method(ss, "__init__"), prog.method(ss, "isdisjoint")])
 
 
 def relation_formula_check(prog, rep: Report, rule: str, cname: str, closed_only: bool = False):
